@@ -269,14 +269,15 @@ class Obligation:
         self.model = model
         self.seconds = seconds
         self.path = path
+        self.effort = 0             # z3 resource units spent on the obligation
 
     def to_json(self):
         return {'name': self.name, 'kind': self.kind, 'status': self.status,
                 'detail': self.detail, 'model': self.model,
-                'seconds': round(self.seconds, 4), 'path': self.path}
+                'seconds': round(self.seconds, 4), 'path': self.path, 'effort': self.effort}
 
 
-FEAS_TIMEOUT_MS = 10000
+FEAS_TIMEOUT_MS = 600000      # backstop only: FEAS_RLIMIT is the budget that binds
 FEAS_RLIMIT = 15000000
 
 
